@@ -31,7 +31,7 @@ gvars == <<vars, hist>>
 View ==
     [handlers |-> handlers',
      h |-> [x \in Handlers |->
-              [pc |-> pc'[x], done |-> ctxDone'[x], qlen |-> Len(queue'[x]),
+              [pc |-> pc'[x], done |-> ctxDone'[x], kind |-> kind'[x], qlen |-> Len(queue'[x]),
                cur |-> cur'[x],
                inv |-> { m \in Msgs : ninv'[x][m] > 0 }]]]
 
@@ -54,7 +54,7 @@ GSend(s) ==
          /\ budget' = [budget EXCEPT ![m] = MaxRetx]
          /\ book' = [book EXCEPT !.calls[s] = @ + 1, !.tagged[m] = @ \cup {book.calls[s] + 1}]
          /\ EnqAll(m)
-         /\ UNCHANGED <<dl, handlers, ctxDone, removed, pc, cur, seen, ninv, stale>>
+         /\ UNCHANGED <<dl, handlers, ctxDone, kind, removed, pc, cur, seen, ninv, stale>>
          /\ E("Send", "", m, FALSE)
 
 \* channel.Send whose own publication attempt fails (libp2p: the publisher returns an
@@ -65,7 +65,7 @@ GSendFail(s) ==
          /\ counter' = [counter EXCEPT ![s] = @ + 1]
          /\ budget' = [budget EXCEPT ![m] = MaxRetx]
          /\ book' = [book EXCEPT !.calls[s] = @ + 1, !.tagged[m] = @ \cup {book.calls[s] + 1}, !.fails = @ + 1]
-         /\ UNCHANGED <<dl, handlers, ctxDone, removed, pc, queue, cur, seen, ninv, stale, acc>>
+         /\ UNCHANGED <<dl, handlers, ctxDone, kind, removed, pc, queue, cur, seen, ninv, stale, acc>>
          /\ E("SendFail", "", m, FALSE)
 
 \* one retransmission (the RetransmitFn of Send), synchronously
@@ -73,7 +73,7 @@ GRetransmit(m) ==
     /\ budget[m] > 0
     /\ budget' = [budget EXCEPT ![m] = @ - 1]
     /\ EnqAll(m)
-    /\ UNCHANGED <<counter, dl, handlers, ctxDone, removed, pc, cur, seen, ninv, stale, book>>
+    /\ UNCHANGED <<counter, dl, handlers, ctxDone, kind, removed, pc, cur, seen, ninv, stale, book>>
     /\ E("Retransmit", "", m, FALSE)
 
 GRegister(h) == ~ctxDone[h] /\ Register(h) /\ E("Register", h, NoMsg, FALSE)
@@ -87,6 +87,7 @@ GCancel(h) ==
           THEN Cancel(h) /\ E("Cancel", h, NoMsg, FALSE)
           ELSE /\ ~ctxDone[h]
                /\ ctxDone' = [ctxDone EXCEPT ![h] = TRUE]
+               /\ \E k \in EndKinds : kind' = [kind EXCEPT ![h] = k]
                /\ handlers' = SwapRemove(handlers, h)
                /\ removed' = [removed EXCEPT ![h] = TRUE]
                /\ UNCHANGED <<counter, budget, dl, pc, queue, cur, seen, ninv, stale, acc, book>>
@@ -108,7 +109,7 @@ GFilterInvoke(h) ==
                /\ seen' = [seen EXCEPT ![h] = @ \cup {cur[h]}]
                /\ ninv' = [ninv EXCEPT ![h][cur[h]] = @ + 1]
                /\ UNCHANGED cur
-    /\ UNCHANGED <<counter, budget, dl, handlers, ctxDone, removed, queue, stale, acc, book>>
+    /\ UNCHANGED <<counter, budget, dl, handlers, ctxDone, kind, removed, queue, stale, acc, book>>
     /\ E("FilterInvoke", h, cur[h], FALSE)
 
 Stop == Len(hist) >= MaxSteps
